@@ -70,6 +70,14 @@ def judge(res, b, desc, values, x64, what, w):
     t = tol(x64, o["abs_terms"], o["cond"])
     user = desc["user"]
     raw = {"log_prob": np.asarray(m.log_prob), "log_lik": np.asarray(m.log_lik), "log_prior": np.asarray(m.log_prior)}
+    if desc["user"].get("log_lik") == "array":
+        # array-valued user node: forwarded unchanged (same shape, same values)
+        expa = sm.user_value("log_lik", values, "array")
+        res.mon("user_node_forwarded")
+        if raw["log_lik"].shape != expa.shape or not np.allclose(raw["log_lik"], expa, rtol=1e-5, atol=1e-6):
+            res.violation("user-node-not-forwarded", f"{what}: array-valued user log_lik node of shape {expa.shape} was not forwarded "
+                          f"unchanged: model.log_lik has shape {raw['log_lik'].shape}", w)
+        raw["log_lik"] = np.asarray(np.sum(raw["log_lik"]))
     for k, v in raw.items():
         if v.shape != ():
             res.violation("total-not-scalar", f"{what}: model.{k} has shape {v.shape}, expected a scalar total", w)
@@ -78,7 +86,7 @@ def judge(res, b, desc, values, x64, what, w):
     exp = dict(o)
     for k in ("log_lik", "log_prior", "log_prob"):
         if user.get(k):
-            exp[k] = float(sm.user_value(k, values))
+            exp[k] = float(np.sum(sm.user_value(k, values, user.get(k))))
             res.mon("user_node_forwarded")
             if abs(got[k] - exp[k]) > t + 1e-5 * abs(exp[k]):
                 res.violation("user-node-not-forwarded", f"{what}: user-supplied {k} node gives {exp[k]} but model.{k} = {got[k]}", w)
